@@ -45,5 +45,10 @@ CLAIMED = {
   note="Bounds: stored and submitted object with <= 1 server (pointer member in thorough), <= 1 condition, labels/annotations nil/empty/one entry, strings <= 1 byte, any generation. The kind is a harness-defined struct with ObjectMeta+Spec+Status (the strategies only look at field names via reflection); the staging module cannot import the real kinds. Trusted: the reflect layer (TypeOf/ValueOf/Elem/FieldByName/Set/New/Interface/DeepEqual), validated by native replay of every path witness. Outside: the generic registry around the strategies.",
   technique="symbolic execution of go/ssa with a reflect intrinsic layer + SMT (QF_BV)",
   ref="9/C20"),
+ "C02": dict(
+  text="Bounded symbolic model checking of the composition the proxy actually runs: the real impersonation filter (WithNoLoggingImpersonation, buildImpersonationRequests, with net/http headers, net/url and the k8s service-account helpers executed from source) in front of the real impersonating transport wrapper (WrapRequest, headerKeyEscape); obligations on the header set and identity that would be forwarded, for every authorizer answer. Separate kernel check of the extra-key escaping against a reference encoding and the real net/url decoder.",
+  note="Bounds: user name <= 2/3 bytes, <= 1 group, client headers: optional Impersonate-User/-Group/-Extra-<k>/-<AnyWord> (canonical form), values <= 2-3 bytes; escape kernel: keys <= 3/4 arbitrary bytes. Stubs: k8s responsewriters (answer through the same ResponseWriter), name validators (arbitrary predicate), context (reference model). Outside: what net/http and client-go's credential wrappers put on the wire, Authorization header removal by k8s WithAuthentication (wiring not encoded yet), header-name casing (canonical form assumed, as net/http servers deliver), empty user names.",
+  technique="symbolic execution of go/ssa (filter + transport wrapper + net/http/net/url from source) + SMT (QF_BV)",
+  ref="9/C02"),
 }
 NOT_APPLICABLE = {}
